@@ -778,6 +778,9 @@ def _emit_fn(unit, fs, it, out, rules):
     parent = getattr(it, "parent", None)
     if parent is not None:
         header = parent.text(parent.a, parent.body[0])
+        if getattr(fs, "inherent", False) and parent.impl_trait is not None:
+            header = "impl %s" % parent.impl_target
+            _bump(rules, "R11 trait-impl method emitted as inherent method (%s)" % fs.qual)
         out.add(header + " {\n")
         out.add("    " + vis + out_text + "\n", origin)
         out.add("}\n\n")
